@@ -674,7 +674,16 @@ def oracle(ctx, d: Path) -> None:
             sl, ph = text_after.splitlines(), ref_phys_lines(text_after)
             affected = sorted({t[1] for t in missing + extra})
             shifted = splits_exotic and any(ln > len(sl) or ln > len(ph) or sl[ln - 1] != ph[ln - 1] for ln in affected)
-            existing = any(ln in chosen and "# noqa" in gf.lines[ln - 1] for ln in affected)
+            # the recorded finding, narrowly: the line ALREADY ended in a comment that reads as a complete noqa comment from its first
+            # `# noqa` on (`# noqa: FURB999`), so that the appended one becomes part of that comment's code list.  `# noqa` text inside a
+            # string literal, or an earlier comment that is no valid noqa comment (`# noqa-ish`, `# noqa: isn't`), is NOT that case:
+            # the regex search goes on to the appended comment there
+            def _shadowed(ln: int) -> bool:
+                old_line = gf.lines[ln - 1].rstrip()
+                i = old_line.find("# noqa")
+                return ln in chosen and i != -1 and re.compile(r"""# noqa(: [^'"]*)?$""").match(old_line, i) is not None
+
+            existing = any(_shadowed(ln) for ln in affected)
             if shifted:
                 sig = {"kind": "line-identity", "cause": "splitlines-only-separator"}
                 what = "`# noqa` is looked up on a different line than the one Python reports: str.splitlines() splits at a character the tokenizer does not treat as a line end"
